@@ -220,7 +220,7 @@ Anchors ==
   /\ \E p \in Parts : WellFormed(p) /\ Render(p) = "tcp://localhost:1@45,5"
   /\ \E p \in Parts : WellFormed(p) /\ Render(p) = "udp://192.168.0.20:65535?43.3,1.35"
   /\ \E p \in Parts : ~WellFormed(p) /\ Render(p) = "tcp://localhost:1@43.5, 1.5"
-  /\ {Len(RefText(r)) : r \in {x \in Refs : x.class = "latlon"}} \supseteq 3..12
+  /\ (3..12) \subseteq {Len(RefText(r)) : r \in {x \in Refs : x.class = "latlon"}}
   /\ \A r \in Refs : r.class = "latlon" => RefWellFormed(r)
   /\ DecK(45000000, 0) = "45" /\ DecK(-461000, 3) = "-0.461" /\ DecK(0, 0) = "0" /\ DecK(1350000, 2) = "1.35"
   /\ DecStr(-33946110) = "-33.946110" /\ DecStr(1500000) = "1.500000" /\ DecStr(-461000) = "-0.461000"
